@@ -190,7 +190,10 @@ def check_case(case: dict[str, Any]) -> tuple[dict[str, Any], list[Any]]:
         gaps.append(round(gap, 6))
         want = doc(term, k)
         if gap < want - 1e-6:
-            v.append(("retry_starts_before_documented_delay", {**w, "retry": ("first" if k == 1 else "later")},
+            # root-cause context: is the delay the one the strategy documents for the NEXT retry (the recorded defect: the engine
+            # evaluates every strategy one step ahead)?  An early retry that is not even that is something else.
+            one_ahead = gap >= doc(term, k + 1) - 1e-6
+            v.append(("retry_starts_before_documented_delay", {**w, "retry": ("first" if k == 1 else "later"), "delay_is_the_next_retrys": one_ahead},
                       f"wait={term}: retry {k} started {gap:.6f}s after failure {k}, documented delay >= {want:.6f}s"))
     return {"gaps": gaps, "doc": [round(doc(term, k), 6) for k in range(1, retries + 1)]}, v
 
